@@ -95,19 +95,19 @@ type mb struct {
 
 func matureBuckets(st *State, k int) []mb {
 	c1 := nd.TimeRange("c1", TLo, THi)
-	q1 := nd.IntRange("q1", "1", Pow30)
+	q1 := nd.IntRange("q1", "0", Pow30)
 	bs := []mb{{0, c1, []Entry{{0, 0, q1}}}}
 	if k&1 != 0 { // mixed bucket
-		bs[0].entries = append(bs[0].entries, Entry{1, 0, nd.IntRange("q2", "1", Pow30)})
+		bs[0].entries = append(bs[0].entries, Entry{1, 0, nd.IntRange("q2", "0", Pow30)})
 	}
 	if k&2 != 0 { // second bucket of the same delegator
 		c2 := nd.TimeRange("c2", TLo, THi)
 		nd.Assume(!c2.Equal(c1))
-		bs = append(bs, mb{0, c2, []Entry{{0, 0, nd.IntRange("q3", "1", Pow30)}}})
+		bs = append(bs, mb{0, c2, []Entry{{0, 0, nd.IntRange("q3", "0", Pow30)}}})
 	}
 	if k&4 != 0 { // other delegator (same or different time)
 		c3 := nd.TimeRange("c3", TLo, THi)
-		bs = append(bs, mb{1, c3, []Entry{{0, 0, nd.IntRange("q4", "1", Pow30)}}})
+		bs = append(bs, mb{1, c3, []Entry{{0, 0, nd.IntRange("q4", "0", Pow30)}}})
 	}
 	for _, b := range bs {
 		InstallUnbonding(st.E, b.d, b.c, b.entries)
